@@ -162,3 +162,49 @@ func VH_C18_L2(fl, fr, op, lmax int) {
 
 func vKnownC18(fl int, a [][]byte, fr int, b [][]byte) {
 }
+
+// VH_C18_E2E: whole statements. A pinning clause under projection, LIMIT (offsets beyond the
+// result included), ORDER BY and aggregation, drained to the end in either mode, reads only keys
+// of the pinned region plus at most one key beyond its end; equality and IN never open a cursor.
+var vC18Suffixes = []string{"", " limit 1, 2", " limit 4, 5", " limit 0", " order by value", " order by key desc limit 2, 1", " & value = 'x'", " & value = 'x' limit 3, 1"}
+
+func VN_C18_SUFFIX(tier int) int { return len(vC18Suffixes) }
+
+func VH_C18_E2E(form, suffix, n, B, mode int) {
+	op := vMakeOperand(form, "a", 0, 1, "ab")
+	vAssume(op.wellFormed)
+	st := vSymStore(n, 0, 2, 1, 1, "ab", "xy")
+	PlanBatchSize = B
+	q := "select * where " + op.text + vC18Suffixes[suffix]
+	p, err := NewOptimizer(q).BuildPlan(st)
+	vAssert(err == nil, "harness/C18-E2E-rejected")
+	var r vRows
+	if mode == 0 {
+		r = vDrainNext(p, n+1)
+	} else {
+		r = vDrainBatch(p, n+1)
+	}
+	vAssert(r.err == nil, "harness/C18-E2E-error")
+	beyond := 0
+	cursors := 0
+	for _, c := range st.log {
+		switch c.Op {
+		case "Cursor":
+			cursors++
+		case "Get":
+			vAssert(vPinned(form, op.lits, c.Key), "C18/E2E-point-read-outside-the-pinned-keys")
+		case "Next":
+			if c.Key != nil && !vPinned(form, op.lits, c.Key) {
+				beyond++
+			}
+		}
+	}
+	vAssert(beyond <= 1, "C18/E2E-more-than-one-key-read-beyond-the-pinned-region")
+	if form >= 2 && form <= 4 {
+		vAssert(cursors == 0, "C18/E2E-equality-or-IN-opens-a-cursor")
+	}
+	if form == 0 {
+		vAssert(len(st.log) == 0, "C18/E2E-unsatisfiable-clause-touches-storage")
+	}
+	vCover("drained")
+}
